@@ -72,8 +72,13 @@ func scriptStyleInput(cs *core.Case, env *Env) string {
 		case 1: // unterminated
 			b.WriteString("<" + name + attrs + ">" + body)
 		case 2: // nested in svg / math
-			w := gen.Pick(r, []string{"svg", "math", "svg><desc", "math><mtext", "select", "table", "noscript", "template", "textarea", "title", "xmp"})
-			b.WriteString("<" + w + "><" + name + attrs + ">" + body + "</" + name + "></" + strings.SplitN(w, ">", 2)[0] + ">")
+			w := gen.Pick(r, []string{"svg", "math", "svg><desc", "math><mtext", "select", "table", "noscript", "template", "textarea", "title", "xmp", "object", "frameset", "nostyle", "iframe", "my-x", "svg><g", "object><p"})
+			outer := strings.SplitN(w, ">", 2)[0]
+			if r.Intn(3) == 0 {
+				// the wrapper's own end tag, a start tag and text inside the script/style body
+				body = gen.Pick(r, []string{"", "x"}) + "</" + outer + "><b>" + mg.next(r) + "</b>" + mg.next(r) + " " + body
+			}
+			b.WriteString("<" + w + "><" + name + attrs + ">" + body + "</" + name + "></" + outer + ">")
 		case 3: // stray end tag
 			b.WriteString(mg.next(r) + "</" + name + ">")
 		case 4: // fake end tag then real one
